@@ -6,6 +6,20 @@ import os
 ROOT = os.path.dirname(os.path.dirname(os.path.abspath(__file__)))
 
 CHECKS = {
+    "C01": dict(
+        technique="executable IEEE-1364 semantics in TLA+ (VerilogSem) interpreting the parsed text that the real convert() "
+                  "emitted; the FHDL side is the executed reference simulator; TLC judges recorded (expression, target, "
+                  "valuation) cases (ExprJudge) and per-cycle traces of generated fragments, memories and real LiteX cores "
+                  "(VlogTrace); the expression space is enumerated by TLC (ExprSpace)",
+        text="all depth-1 and a spine space of depth-2 expression ASTs over 17 operators/slices/Cat/Replicate x shapes x "
+             "targets x positions x all valuations (0.8M pairs quick, 8M thorough), 150 (1500) generated fragments with "
+             "two clock domains, 60 (500) memories in every port mode, 10-17 real cores; ExprEquivalent, StepEq, "
+             "SingleDriver, ImageLegal are invariants of the recorded cases; mismatches are classified by hypothesis "
+             "modes (intermediate overflow etc.).",
+        note="2-state zero-delay subset, widths <= 30 bit, instances/tristates opaque; VerilogSem is trusted (ASSUME "
+             "self-tests from the standard); 31 known-finding classes incl. negative constants printed unsigned (listed); "
+             "an unexplained mismatch inside a listed class would be masked",
+        ref="4 (C01)", engine="tlc+api"),
     "C02": dict(
         technique="TLA+ specs of the name-request state machine (Namer/NamerM, model-checked) and of the input space "
                   "(NamerInputs, enumerated by TLC); recorded name tables of the real SignalNamespace / convert() "
